@@ -24,6 +24,35 @@ def mk_values(h, double_math=False, stringspace=None):
     return vals
 
 
+class StubMemory(object):
+    """Stand-in for DataSegment as far as StringSpace needs it: fixed layout, unlimited room."""
+    code_start = 1000
+
+    def __init__(self):
+        self.program = None
+
+    def stack_start(self):
+        return 60000
+
+    def var_start(self):
+        return 5000
+
+    def check_free(self, size, err):
+        pass
+
+
+def mk_values_s(h, double_math=False):
+    """Values with a real StringSpace over a stub memory."""
+    S = h.P.basic.values.strings
+    return mk_values(h, double_math, S.StringSpace(StubMemory()))
+
+
+def mk_str(h, vals, content):
+    """Real String value holding these bytes."""
+    S = h.P.basic.values.strings
+    return S.String(None, vals).from_str(content)
+
+
 def mk_num(h, vals, raw):
     """Real Integer/Single/Double from 2/4/8 raw bytes."""
     N = h.P.basic.values.numbers
@@ -75,27 +104,82 @@ def result_is_int(res, value):
 # ---- exact description of MBF floats -------------------------------------------------------
 
 class FVal(object):
-    """Exact value of an MBF float: zero, or (-1)^neg * man * 2^(exp - bias) with man having
-    its top (assumed) bit set; man has nbits bits."""
+    """Exact value of a number: zero, or (-1)^neg * M * 2^(E - 128 - 56) where M is a 56-bit
+    mantissa with its top bit set and E the biased MBF exponent (1..255 for floats).
+    Singles are widened exactly (mantissa << 32); Integers are normalised by case analysis."""
 
-    def __init__(self, raw):
+    def __init__(self, zero, neg, E, M):
+        self.zero, self.neg, self.E, self.M = zero, neg, E, M
+
+    @staticmethod
+    def of_raw(raw):
         raw = list(raw)
-        self.n = len(raw)
-        self.nbits = 8 * (self.n - 1)
-        self.expbyte = raw[-1]
-        self.zero = (raw[-1] == 0)
-        self.neg = (raw[-2] >= 128)
+        if len(raw) == 2:
+            return FVal.of_int(s16(raw))
+        nb = 8 * (len(raw) - 1)
         man = 0
-        for k in range(self.n - 1):
+        for k in range(len(raw) - 1):
             man = man + raw[k] * (1 << (8 * k))
-        # replace sign bit by the assumed leading one
-        top = 1 << (self.nbits - 1)
-        self.man = ite(self.neg, man, man + top)
-        # value = man * 2^(expbyte - 128 - nbits)
-        self.scale_bias = 128 + self.nbits
+        neg = raw[-2] >= 128
+        top = 1 << (nb - 1)
+        man = ite(neg, man, man + top)           # sign bit position holds the assumed 1
+        return FVal(raw[-1] == 0, neg, raw[-1], man * (1 << (56 - nb)))
+
+    @staticmethod
+    def of_int(n, bits=16):
+        neg = n < 0
+        a = ite(neg, -n, n)
+        E, M = 0, 0
+        # a in [2^(k-1), 2^k)  ->  E = 128 + k, M = a << (56 - k)
+        for k in range(bits, 0, -1):
+            c = a < (1 << k)
+            E = ite(c, 128 + k, E) if k < bits else 128 + k
+            M = ite(c, a * (1 << (56 - k)), M) if k < bits else a * (1 << (56 - k))
+        return FVal(n == 0, neg, E, M)
 
 
-def fval_scaled(f, shift):
-    """Signed exact value times 2^shift as an integer formula -- only valid when the true
-    scale (expbyte - bias + shift) is >= 0 ... callers ensure that by construction."""
-    raise NotImplementedError
+def f_mag_gt(x, y):
+    return s_or(x.E > y.E, s_and(x.E == y.E, x.M > y.M))
+
+
+def f_gt(x, y):
+    """exact x > y"""
+    return ite(x.zero, s_and(s_not(y.zero), y.neg),
+               ite(y.zero, s_not(x.neg),
+                   ite(s_iff(x.neg, y.neg),
+                       ite(x.neg, f_mag_gt(y, x), f_mag_gt(x, y)),
+                       y.neg)))
+
+
+def f_eq(x, y):
+    return ite(s_or(x.zero, y.zero), s_and(x.zero, y.zero),
+               s_and(s_iff(x.neg, y.neg), x.E == y.E, x.M == y.M))
+
+
+def bool_result(res):
+    """('ok', Integer -1/0) -> bool formula; anything else -> None"""
+    if res[0] != 'ok' or type(res[1]).__name__ != 'Integer':
+        return None
+    return raw_of(res[1])
+
+
+TYPES = {'i': 2, 's': 4, 'd': 8}
+
+
+def int_part(x):
+    """(ipart, frac_nonzero, half_rounded) of |x| for an FVal with E <= 184:
+    ipart = floor|x|, half_rounded = floor(|x| + 1/2)"""
+    k = 184 - x.E                      # >= 0 by precondition
+    ipart = x.M >> k
+    frac = (ipart << k) != x.M
+    km1 = ite(k >= 1, k - 1, 0)
+    rounded = ite(k >= 1, ((x.M >> km1) + 1) >> 1, x.M)
+    return ipart, frac, rounded
+
+
+def fval_is_int(r, neg, n):
+    """FVal r has exactly the value (-1)^neg * n  (n >= 0 an integer formula < 2^56)"""
+    k = 184 - r.E
+    kk = ite(k >= 0, k, 0)
+    return ite(n == 0, r.zero,
+               s_and(s_not(r.zero), s_iff(r.neg, neg), k >= 0, (n << kk) == r.M))
